@@ -522,6 +522,8 @@ class Walker:
         caller_env = st.env
         st.env = dict(gen[2])
         st.env["$caller_env"] = caller_env
+        if "$heap" in caller_env:
+            st.env["$heap"] = caller_env["$heap"]  # object attributes are per-path state, not per-frame
         if fi.parent is not None:
             st.env["$closure"] = C(True)
         st.ev("gen-enter", self.site(node), gen[1])
@@ -530,10 +532,14 @@ class Walker:
             gen_env = s_y.env
             s_c = s_y.copy()
             s_c.env = dict(gen_env.get("$caller_env", caller_env))
+            if "$heap" in gen_env:
+                s_c.env["$heap"] = gen_env["$heap"]
             res = []
             for s1, k1, p1 in on_yield(s_c, yielded):
                 s1 = s1.copy()
                 s1.env = dict(gen_env, **{"$caller_env": s1.env})
+                if "$heap" in s1.env["$caller_env"]:
+                    s1.env["$heap"] = s1.env["$caller_env"]["$heap"]
                 if k1 in ("fall", "continue"):
                     res.append((s1, "fall", None))
                 else:
@@ -544,7 +550,10 @@ class Walker:
         outs = []
         for s3, k3, p3 in w2.block(fi.node.body, st):
             s3 = s3.copy()
+            heap3 = s3.env.get("$heap")
             s3.env = dict(s3.env.get("$caller_env", caller_env))
+            if heap3 is not None:
+                s3.env["$heap"] = heap3
             if k3 in ("fall", "return"):
                 if fi.yields_in_loops:
                     # values of the names the consumer assigns per element are those of an unknown
